@@ -1,6 +1,7 @@
 package rules
 
 import (
+	"go/token"
 	"go/types"
 	"sort"
 
@@ -117,12 +118,8 @@ func (li *loaderInfo) carries(p *core.Prog, prm *ssa.Parameter, kind string, dep
 			if kind == "path" && fileReadParamAvoiding(p, r, 0, li.cycle) == idx {
 				return true
 			}
-			if kind == "chain" {
-				if sl, ok := prm.Type().Underlying().(*types.Slice); ok {
-					if b, ok := sl.Elem().Underlying().(*types.Basic); ok && b.Kind() == types.String {
-						return true
-					}
-				}
+			if kind == "chain" && isChainType(prm.Type()) {
+				return true
 			}
 		}
 	}
@@ -230,4 +227,73 @@ func (li *loaderInfo) growthSites(p *core.Prog) []growthSite {
 		})
 	}
 	return res
+}
+
+// isChainType: a list of file names that can grow along the recursion — a
+// slice of strings, or a pointer to a linked node (a struct with a string
+// field and a pointer to its own type).
+func isChainType(t types.Type) bool {
+	if sl, ok := t.Underlying().(*types.Slice); ok {
+		if b, ok := sl.Elem().Underlying().(*types.Basic); ok && b.Kind() == types.String {
+			return true
+		}
+	}
+	if pt, ok := t.Underlying().(*types.Pointer); ok {
+		if st, ok := pt.Elem().Underlying().(*types.Struct); ok {
+			hasStr, hasNext := false, false
+			for i := 0; i < st.NumFields(); i++ {
+				ft := st.Field(i).Type()
+				if b, ok := ft.Underlying().(*types.Basic); ok && b.Kind() == types.String {
+					hasStr = true
+				}
+				if types.Identical(ft, t) {
+					hasNext = true
+				}
+			}
+			return hasStr && hasNext
+		}
+	}
+	return false
+}
+
+// membershipHelper: fn (a function of the module returning bool) compares
+// something it reads out of its parameter i — an element, a field, also of
+// the nodes reached from it — with another of its parameters: `contains`.
+func membershipHelper(p *core.Prog, fn *ssa.Function, i int) bool {
+	if fn == nil || fn.Blocks == nil || i >= len(fn.Params) || !onlyBoolResults(fn) {
+		return false
+	}
+	container := fn.Params[i]
+	found := false
+	core.EachInstr(fn, func(ins ssa.Instruction) {
+		bo, ok := ins.(*ssa.BinOp)
+		if !ok || found || (bo.Op != token.EQL && bo.Op != token.NEQ) {
+			return
+		}
+		reads := func(v ssa.Value) bool {
+			for x := range originSet(p, v, 0) {
+				switch y := x.(type) {
+				case *ssa.Field, *ssa.FieldAddr, *ssa.Index, *ssa.IndexAddr, *ssa.Lookup, *ssa.Range, *ssa.Next:
+					for z := range originSet(p, y.(ssa.Value), 0) {
+						if z == ssa.Value(container) {
+							return true
+						}
+					}
+				}
+			}
+			return false
+		}
+		other := func(v ssa.Value) bool {
+			for x := range originSet(p, v, 0) {
+				if prm, ok := x.(*ssa.Parameter); ok && prm != container {
+					return true
+				}
+			}
+			return false
+		}
+		if (reads(bo.X) && other(bo.Y)) || (reads(bo.Y) && other(bo.X)) {
+			found = true
+		}
+	})
+	return found
 }
